@@ -295,3 +295,6 @@ Example ex_scaled_negative :
   /\ hook_bits (mkChannel (Some (NTScaled (-100) 100 (d 0xbfe0000000000000) (d 0x4008000000000000)))
                        (Some (NScaled 0)) (Some (NScaled 10))) (d 0xc000000000000000) = Some 0%N.
 Proof. vm_compute. split; reflexivity. Qed.
+
+Lemma endpoint_bits : bits_of_f32 f32_zero = 0%N /\ bits_of_f32 f32_one = 0x3f800000%N.
+Proof. vm_compute. split; reflexivity. Qed.
